@@ -162,24 +162,26 @@ def probes(rec: Rec, tl, cuts, r, budget):
     masks = [[bool((m >> j) & 1) for j in range(n)] for m in range(2 ** n)] if n <= 3 else \
         [[r.random() < 0.5 for _ in range(n)] for _ in range(6)]
     for mk in masks:
-        cat.append(("mask", lambda mk=mk: rec.run("mask", tl, lambda: tl[np.array(mk, dtype=bool)], {"mask": mk})))
+        cat.append(("mask", lambda mk=mk: rec.run("mask", tl, lambda: tl[np.array(mk, dtype=bool)], {"mask": mk},
+                                                  check_share=True)))
     for rev in (False, True):
-        cat.append(("sorted", lambda rev=rev: rec.run("sorted", tl, lambda: tl.sorted(reverse=rev), {"rev": rev})))
+        cat.append(("sorted", lambda rev=rev: rec.run("sorted", tl, lambda: tl.sorted(reverse=rev), {"rev": rev},
+                                                      check_share=True)))
     for t in cuts:
         for inc in (False, True):
             for flag in ((False, True) if hold else (None,)):
                 if hold:
                     cat.append(("after", lambda t=t, inc=inc, f=flag: rec.run(
                         "after", tl, lambda: tl.after(ms(t), include_end=inc, include_tail=f),
-                        {"t": t, "inc": inc, "tail": f})))
+                        {"t": t, "inc": inc, "tail": f}, check_share=True)))
                     cat.append(("before", lambda t=t, inc=inc, f=flag: rec.run(
                         "before", tl, lambda: tl.before(ms(t), include_end=inc, include_head=f),
-                        {"t": t, "inc": inc, "head": f})))
+                        {"t": t, "inc": inc, "head": f}, check_share=True)))
                 else:
                     cat.append(("after", lambda t=t, inc=inc: rec.run(
-                        "after", tl, lambda: tl.after(ms(t), include_end=inc), {"t": t, "inc": inc, "tail": False})))
+                        "after", tl, lambda: tl.after(ms(t), include_end=inc), {"t": t, "inc": inc, "tail": False}, check_share=True)))
                     cat.append(("before", lambda t=t, inc=inc: rec.run(
-                        "before", tl, lambda: tl.before(ms(t), include_end=inc), {"t": t, "inc": inc, "head": True})))
+                        "before", tl, lambda: tl.before(ms(t), include_end=inc), {"t": t, "inc": inc, "head": True}, check_share=True)))
     for lo in cuts:
         for hi in cuts:
             if lo > hi:
@@ -193,15 +195,15 @@ def probes(rec: Rec, tl, cuts, r, budget):
                                     "between", tl,
                                     lambda: tl.between(ms(lo), ms(hi), include_ends=(il, ih), include_head=hd,
                                                        include_tail=tlf),
-                                    {"lo": lo, "hi": hi, "inclo": il, "inchi": ih, "head": hd, "tail": tlf})))
+                                    {"lo": lo, "hi": hi, "inclo": il, "inchi": ih, "head": hd, "tail": tlf}, check_share=True)))
                     else:
                         cat.append(("between", lambda lo=lo, hi=hi, il=il, ih=ih: rec.run(
                             "between", tl, lambda: tl.between(ms(lo), ms(hi), include_ends=(il, ih)),
-                            {"lo": lo, "hi": hi, "inclo": il, "inchi": ih, "head": True, "tail": False})))
+                            {"lo": lo, "hi": hi, "inclo": il, "inchi": ih, "head": True, "tail": False}, check_share=True)))
                         if il == ih:
                             cat.append(("between", lambda lo=lo, hi=hi, il=il: rec.run(
                                 "between", tl, lambda: tl.between(ms(lo), ms(hi), include_ends=il),
-                                {"lo": lo, "hi": hi, "inclo": il, "inchi": il, "head": True, "tail": False})))
+                                {"lo": lo, "hi": hi, "inclo": il, "inchi": il, "head": True, "tail": False}, check_share=True)))
     # append in its four argument forms
     for form in ("item", "list", "series", "df"):
         for sort in (False, True):
